@@ -264,6 +264,7 @@ func main() {
 	genTabular(&w)
 	genNested(&w)
 	genCopy(&w)
+	genPriv(&w)
 	sort.Strings(unsupported)
 	var us []string
 	for _, u := range unsupported {
